@@ -53,8 +53,39 @@ def run(rep, repo, tier):
     check_callers(rep, repo, f)
 
 
+def dict_groups_as_scatter(lists):
+    """[G.get(j, []) for j in range(1, n + 1)]  with  G = {key: [values appended in order]}  is the scatter of the values into
+    n lists at index key - 1 (agents that never occur as a key keep an empty list in place)"""
+    c = lists
+    if c[0] == 'cat':
+        parts = [p_ for p_ in c[1] if p_ != ('list', ())]
+        c = parts[0] if len(parts) == 1 else c
+    if not (c[0] == 'comp' and len(c[1]) == 1 and c[1][0][1] == TRUE):
+        return lists
+    b = c[1][0][0]
+    d = b[3]
+    v = c[2]
+    if not (d[0] == 'call' and d[1] == S('range') and len(d[2]) == 2 and d[2][0] == C(1) and d[2][1][0] == 'bin' and d[2][1][1] == 'Add' and C(1) in (d[2][1][2], d[2][1][3])):
+        return lists
+    n = d[2][1][2] if d[2][1][3] == C(1) else d[2][1][3]
+    G = None
+    if v[0] == 'call' and v[1][0] == 'attr' and v[1][2] == 'get' and len(v[2]) == 2 and v[2][0] == b and v[2][1] == ('list', ()):
+        G = v[1][1]
+    if G is None or not (G[0] == 'accum' and G[1] == ('dict', ()) and all(e[0] == 'appendidx' for e in G[2])):
+        return lists
+    def strip_int(k):
+        while k[0] == 'call' and k[1] == S('int') and len(k[2]) == 1:
+            k = k[2][0]
+        return k
+    fresh = ('bvar', -31, '_', CALL(S('range'), [n]))
+    pre = ('comp', ((fresh, TRUE),), ('list', ()))
+    entries = tuple((op, BIN('Sub', strip_int(idx), C(1)), val, ch) for op, idx, val, ch in G[2])
+    return ('accum', pre, entries) + tuple(G[3:])
+
+
 def check_inversion(rep, f, lists, lists_p, n_p):
     w = f.where
+    lists = dict_groups_as_scatter(lists)
     if lists[0] != 'accum':
         txt = show(lists)[:200]
         pad = contains(lists, lambda x: x[0] == 'bin' and x[1] == 'Mult' and (x[2] == ('list', (('list', ()),)) or x[3] == ('list', (('list', ()),))))
